@@ -79,8 +79,11 @@ class _FieldOfDressed:
             # Copy the python data (changes also dressed_new._xobject)
             dressed_new.__dict__.update(value.__dict__)
 
-            # Restore correct _xobject
-            dressed_new._xobject = getattr(container._xobject, self.name)
+            # Restore correct _xobject, and dress its nested parts again: the
+            # update above made them those of `value`
+            dressed_new._reinit_from_xobject(
+                _xobject=getattr(container._xobject, self.name)
+            )
         else:
             self.content = None
             setattr(container._xobject, self.name, value)
